@@ -242,6 +242,7 @@ def register(reg):
         raises={"TypeError": "etag is not None and data is not None"},
     )
     _register_parse_range(reg)
+    _register_process_range(reg)
 
 
 def _replay_parse_range(reg, c, inputs):
@@ -263,11 +264,66 @@ def _register_parse_range(reg):
     """parse_range_header: total, and what it hands to Range() is always a valid, ascending, non-overlapping list"""
     reg.contract(
         "werkzeug/http.py:parse_range_header", prop="C11,C07", params={"value": "Optional[str]"}, modifies=[],
+        returns="Optional[Range]",
         inline_callees=["werkzeug/datastructures/range.py:Range.__init__"], replay=_replay_parse_range,
-        ensures=["True"],
+        ensures=["result is None or I_range(result)", "implies(value is None, result is None)"],
         raises={},        # in particular: the ValueError of Range.__init__ (invalid range) never escapes
         loops={0: {"types": {"ranges": "List[Tuple[int, Optional[int]]]", "item": "str", "begin": "int", "end": "Optional[int]"},
                    "inv": ["forall(0, len(ranges), lambda i: range_ok(ranges[i][0], ranges[i][1]))",
                            "last_end >= -1"],
                    "modifies": ["last_end"]}},
+    )
+
+
+def _register_process_range(reg):
+    """Response._process_range_request: the decision (ignore / 416 / 206) and, for a 206, that status, Content-Length,
+    Content-Range and the wrapped body all describe the one slice range_for_length selected"""
+    H = reg.models["Headers"]
+    RR = reg.model("RangeResponse", cls="werkzeug/wrappers/response.py:Response",
+                   fields={"headers": H, "_status_code": "int", "_status": "str",
+                           # ghost: what _wrap_range_response was asked to serve
+                           "g_wrapped": "bool", "g_start": "int", "g_len": "int"})
+    reg.ufunc("uf_processable", ["Optional[str]"], "bool")
+    reg.contract("werkzeug/wrappers/response.py:Response._is_range_request_processable", prop="C11", trusted=True,
+                 params={"environ": {"HTTP_RANGE": "Optional[str]"}}, returns="bool", modifies=[],
+                 ensures=["implies(result, environ['HTTP_RANGE'] is not None)"],
+                 note="If-Range evaluation (is_resource_modified, its own contract) and presence of a Range header")
+    reg.contract("werkzeug/wrappers/response.py:Response._wrap_range_response", prop="C11", trusted=True,
+                 params={"start": "int", "length": "int"}, modifies=["self.g_wrapped", "self.g_start", "self.g_len"],
+                 ensures=["self.g_wrapped == (self._status_code == 206)", "self.g_start == start and self.g_len == length"],
+                 note="wraps the body in _RangeWrapper(start, length) when the status is 206 (the wrapper's own contract: __next__)")
+    reg.spec("lo1(r, n)", "want_lo(r.ranges[0][0], r.ranges[0][1], n)")
+    reg.spec("hi1(r, n)", "want_hi(r.ranges[0][0], r.ranges[0][1], n)")
+    reg.contract(
+        "werkzeug/wrappers/response.py:Response._process_range_request", prop="C11", self_model=RR,
+        params={"environ": {"HTTP_RANGE": "Optional[str]"}, "complete_length": "Optional[int]", "accept_ranges": "bool"},
+        returns="bool",
+        inline_callees=["werkzeug/sansio/response.py:Response.content_range"],
+        assumes=["complete_length is None or complete_length >= 0", "not self.g_wrapped", "I_h(self.headers)"],
+        ensures=[
+            # not a range request we serve: nothing is touched
+            "implies(not result, self._status_code == old(self._status_code) and self.headers._list == old(self.headers._list) "
+            "        and not self.g_wrapped)",
+            "implies(not accept_ranges or complete_length is None or complete_length == 0, not result)",
+            # 206: one slice, described consistently by status, Content-Length, Content-Range and the wrapped body
+            "implies(result, self._status_code == 206 and self.g_wrapped)",
+            "implies(result, 0 <= self.g_start and 0 < self.g_len)",
+            "implies(result, self.g_start + self.g_len <= complete_length)",
+            "implies(result, first_is(self.headers, 'Content-Range', 'bytes ' + str(self.g_start) + '-' + "
+            "        str(self.g_start + self.g_len - 1) + '/' + str(complete_length)))",
+        ],
+        # each header is checked where it is written (that a later write of ANOTHER key leaves it in place is a fact about
+        # Headers.set that is not in its contract: bounded tier)
+        ghost_after={
+            "content_length = range_tuple[1] - range_tuple[0]": [
+                "assert 0 <= range_tuple[0] and 0 < content_length and range_tuple[0] + content_length <= complete_length",
+                "assert content_range_header == 'bytes ' + str(range_tuple[0]) + '-' + str(range_tuple[0] + content_length - 1) + '/' + str(complete_length)"],
+            "self.headers['Content-Length'] = str(content_length)": [
+                "assert first_is(self.headers, 'Content-Length', str(content_length))"],
+            "self.headers['Accept-Ranges'] = accept_ranges": [
+                "assert first_is(self.headers, 'Accept-Ranges', 'bytes')"],
+        },
+        # 416 only for an unparsable or unsatisfiable Range
+        raises={"RequestedRangeNotSatisfiable": "accept_ranges and complete_length is not None and complete_length > 0"},
+        raises_ensures={"RequestedRangeNotSatisfiable": ["self._status_code == old(self._status_code)", "not self.g_wrapped"]},
     )
